@@ -99,7 +99,9 @@ def make_actions(cfg):
         base = 100 + 10 * d
         if idle:
             w = idle[0]
-            ops = [("sleep", 1), ("sleep", 3), ("dl", 2, ("sleep", 3)), ("dl", 2, ("sleep", 1))]
+            # ("sleep", 2) coincides with the dl-2 deadline of ANOTHER worker started at the same instant
+            # (never with a deadline of the same fiber: that order is unspecified)
+            ops = [("sleep", 1), ("sleep", 2), ("sleep", 3), ("dl", 2, ("sleep", 3)), ("dl", 2, ("sleep", 1))]
             for c in range(nchan):
                 ops += [("give", c, base), ("take", c), ("close", c),
                         ("dl", 2, ("give", c, base)), ("dl", 2, ("take", c))]
